@@ -9,13 +9,18 @@ RULE = ("Window.tla: ReadsInBounds, WriteOnce, InitAtDone, DegenerateIsClean for
         "as its list of writes (RankLoopOK). Binding: every driver and every rolling kernel is run on an instrumented input "
         "container (every unchecked access logged, bounds-checked) into an instrumented output buffer (every write logged, "
         "checked at exposure) on the returned and the caller-buffer path; vrank / vpartition / varg_partition / vquantile "
-        "likewise; the event logs of random larger runs incl. degenerate requests are validated against TraceWindow.tla")
+        "likewise; the event logs of random larger runs incl. degenerate requests are validated against TraceWindow.tla; "
+        "WindowProof.tla proves the drivers' index arithmetic (the operators Window.tla itself uses, WindowIdx.tla) in bounds, "
+        "write-once and complete for EVERY length and window with the TLA+ proof system")
 
 
 def run(ctx):
     q = ctx.quick
     r = ctx.tlc("window", "MCWindow", "MCWindow.cfg" if q else "MCWindow_thorough.cfg", workers=8, timeout=900)
     ro = ctx.tlc("order", "MCOrder", "MCOrder_quick.cfg", workers=12, timeout=900)
+    # the index arithmetic of the drivers (shared with Window.tla through WindowIdx.tla) proved in bounds, each slot
+    # written once and all of them at the end, for EVERY length and window: TLA+ proof system, 55 obligations
+    ctx.tlaps("window-proof", "WindowProof", needs=("WindowIdx",))
     rk = ctx.tlc("window-small", "MCWindow", "MCWindow_small.cfg", workers=8, timeout=900) if q else r
     binp = ctx.build("tvh-roll")
     aggb = ctx.build("tvh-agg")
